@@ -100,7 +100,13 @@ def check_override(y, m, c, k):
     """An explicit leap_seconds value replaces the table value, on construction and on read-back,
     whether or not utc=True is given next to it."""
     out = []
-    args = (y, m, 15, 12, 0, 0.0)
+    for args in ((y, m, 15, 12, 0, 0.0), (y, m, 15, 0, 0, 0.0)):
+        out += _check_override_at(args, y, m, c, k)
+    return out
+
+
+def _check_override_at(args, y, m, c, k):
+    out = []
     exp = Fraction("42.184") + k if y >= 1972 else Fraction(0)
     for lab, kw in (("", {"leap_seconds": k}), ("+utc", {"leap_seconds": k, "utc": True})):
         try:
@@ -124,6 +130,12 @@ def check_override(y, m, c, k):
                 if dev > 1e-3:
                     out.append(("override_readback" + lab2, "get_full_date(**%r) of Epoch(%r, **%r) "
                                 "is %.4f s off" % (kw2, args, kw, float(diff)), dev))
+                y3, m3, d3 = a.get_date(**kw2)
+                diff = (Fraction(fast().n(y3, m3, int(d3))) * 86400 + (Fraction(d3) - int(d3)) * 86400
+                        - civil_seconds(*args))
+                if abs(float(diff)) > 2e-3:
+                    out.append(("override_readback" + lab2, "get_date(**%r) of Epoch(%r, **%r) = %r is %.4f s off"
+                                % (kw2, args, kw, (y3, m3, d3), float(diff)), abs(float(diff))))
             except Exception as ex:
                 out.append(("override_readback" + lab2, "get_full_date(**%r) raised %r" % (kw2, ex), None))
     return out
@@ -241,6 +253,9 @@ def check_forms(y, m, c):
                  ("set_args", lambda: _set(Epoch(), (y, m, fd), kw)),
                  ("set_tuple", lambda: _set(Epoch(), ((y, m, fd),), kw)),
                  ("set_list", lambda: _set(Epoch(2000, 1, 1.0), ([y, m, fd],), kw)),
+                 ("jde_float", lambda: Epoch(Epoch(y, m, d, h, 0, 0.0).jde(), **kw)),
+                 ("set_jde_float", lambda: _set(Epoch(), (Epoch(y, m, d, h, 0, 0.0).jde(),), kw)),
+                 ("epoch_object", lambda: Epoch(Epoch(y, m, d, h, 0, 0.0), **kw)),
                  ("datetime", lambda: Epoch(datetime.datetime(y, m, d, h), **kw)),
                  ("datetime_microseconds", lambda: Epoch(datetime.datetime(y, m, d, h, 0, 0, 250000), **kw) - 0.25 / 86400.0),
                  ("date_noon", lambda: Epoch(datetime.date(y, m, d), **kw) + 0.5)]
